@@ -4,7 +4,7 @@
 (*   got  - the projection of the I-layer state (used for the runs with the open deviations switched on) *)
 EXTENDS MC_FFMap, Json
 \* the input without the embedded force field (the catalogue is exported once as FFS)
-InpJson == [ff |-> inp.ff, n |-> inp.n, start |-> inp.start, rn |-> inp.rn, fi |-> inp.fi, edges |-> inp.edges, sel |-> inp.sel]
+InpJson == [hist |-> inp.hist, ff |-> inp.ff, n |-> inp.n, start |-> inp.start, rn |-> inp.rn, fi |-> inp.fi, edges |-> inp.edges, sel |-> inp.sel]
 SetSeq(S) == SetToSeq(S)
 MolJson(M) == [atoms |-> M.atoms, inters |-> SetSeq(M.inters), gattr |-> [i \in DOMAIN M.gattr |-> SetSeq(M.gattr[i])]]
 PairSeq(P) == SetSeq({SetToSortSeq(p, <) : p \in P})
